@@ -214,6 +214,32 @@ func c04R2(c *Ctx) {
 		c.lost("unescapeData call in escapeReader.Read")
 	}
 	rem := extractOf(calls[0].(*ssa.Call), 1)
+	// the undecoded rest itself, or a local that holds it on the decode path and nil otherwise
+	// (`var pending []byte; if len(buffer) > 0 { …; pending = remaining }`)
+	var carriesRem func(v ssa.Value, depth int) bool
+	carriesRem = func(v ssa.Value, depth int) bool {
+		if rem == nil || v == nil {
+			return false
+		}
+		if sameValue(v, rem) {
+			return true
+		}
+		ph, ok := v.(*ssa.Phi)
+		if !ok || depth > 3 {
+			return false
+		}
+		any := false
+		for _, e := range ph.Edges {
+			if isNilConst(e) {
+				continue
+			}
+			if !carriesRem(e, depth+1) {
+				return false
+			}
+			any = true
+		}
+		return any
+	}
 	keep, copied := false, false
 	eachInstr(r, func(in ssa.Instruction) {
 		if st, ok := in.(*ssa.Store); ok {
@@ -221,7 +247,7 @@ func c04R2(c *Ctx) {
 				keep = true
 			}
 		}
-		if call, ok := in.(*ssa.Call); ok && calleeID(&call.Call) == "builtin copy" && rem != nil && sameValue(call.Call.Args[1], rem) {
+		if call, ok := in.(*ssa.Call); ok && calleeID(&call.Call) == "builtin copy" && carriesRem(call.Call.Args[1], 0) {
 			copied = true
 		}
 	})
@@ -239,7 +265,7 @@ func c04R2(c *Ctx) {
 		}
 		isCarry := func(in ssa.Instruction) bool {
 			call, ok := in.(*ssa.Call)
-			return ok && calleeID(&call.Call) == "builtin copy" && rem != nil && sameValue(call.Call.Args[1], rem)
+			return ok && calleeID(&call.Call) == "builtin copy" && carriesRem(call.Call.Args[1], 0)
 		}
 		isRefill := func(in ssa.Instruction) bool {
 			call, ok := in.(*ssa.Call)
@@ -262,7 +288,7 @@ func c04R2(c *Ctx) {
 		good := false
 		if ok && sl.Low != nil {
 			for _, l := range origins(sl.Low, originOpts{}) {
-				if lc, _ := callOf(l.V); lc != nil && calleeID(&lc.Call) == "builtin len" && rem != nil && sameValue(lc.Call.Args[0], rem) {
+				if lc, _ := callOf(l.V); lc != nil && calleeID(&lc.Call) == "builtin len" && carriesRem(lc.Call.Args[0], 0) {
 					good = true
 				}
 			}
